@@ -31,6 +31,9 @@ pub enum EditKind {
     NumNeg,
     /// a value just below zero (the residue of a rotation, a rounding): -1e-6
     NumTinyNeg,
+    /// a name of 60 two-byte letters (every odd byte offset falls inside a letter) / the same behind one ASCII letter
+    /// (every even offset does)
+    NameWide(u8),
 }
 
 #[derive(Clone, Debug)]
@@ -72,6 +75,10 @@ pub fn enumerate_edits(v: &Value) -> Vec<Edit> {
                 out.push(Edit { path: path.clone(), kind: EditKind::IdNil });
                 out.push(Edit { path: path.clone(), kind: EditKind::IdOther });
                 out.push(Edit { path: path.clone(), kind: EditKind::IdFresh });
+            }
+            Value::String(_) if matches!(path.last(), Some(PE::K(k)) if k == "name") => {
+                out.push(Edit { path: path.clone(), kind: EditKind::NameWide(0) });
+                out.push(Edit { path: path.clone(), kind: EditKind::NameWide(1) });
             }
             Value::Number(n) => {
                 out.push(Edit { path: path.clone(), kind: EditKind::NumZero });
@@ -158,6 +165,10 @@ pub fn apply_edit(base: &Value, e: &Edit) -> Value {
         EditKind::NumZero => {
             let node = nav(&mut v, &e.path);
             *node = if node.is_f64() { json!(0.0) } else { json!(0) };
+        }
+        EditKind::NameWide(k) => {
+            let node = nav(&mut v, &e.path);
+            *node = json!(format!("{}{}", if k == 1 { "a" } else { "" }, "ó".repeat(60)));
         }
         EditKind::NumTinyNeg => {
             let node = nav(&mut v, &e.path);
@@ -586,7 +597,7 @@ pub fn run(ctx: &Ctx) -> i32 {
     ctx.outcome(&"noload");
     ctx.finish(
         "fault_enumeration",
-        &format!("(a) every single JSON-tree edit {{delete key, delete array item, empty/duplicate-last/truncate array, id -> nil / next other id of the document / fresh id, number -> 0, number -> -number, number -> -1e-6}} of the bases (quick: generated tiny + micro models and cubo.json; thorough: + the other 6 shipped models); (b) every ordered pair of such edits on the micro model (thorough: also on the tiny model); (c) 24 box models behind a brise-soleil of 29/31/40/60 identical slats whose centres coincide at 4.05, 0.1, 0.7, 1e-3, 123456.7, -2.3; every editor history of length <= {} from the empty model, and of one step less from a model that already holds a small library of constructions, over {} operations (add space / wall / dangling wall / ground floor / window / wallcons / material / wincons / glass+frame / bridge / shade / loads+schedules / n50+ventilation / interior wall); each resulting document that loads as a Model is run through energy_indicators() in a supervised worker process (20 s watchdog, 4 GiB, panic-site capture, post-panic sentinel on cubo.json); closed models with positive sizes must report only finite numbers and JSON that loads back; non-trivial = document loads as a model", maxlen, NOPS),
+        &format!("(a) every single JSON-tree edit {{delete key, delete array item, empty/duplicate-last/truncate array, id -> nil / next other id of the document / fresh id, number -> 0, number -> -number, number -> -1e-6, name -> 60 two-byte letters (with and without a leading ASCII letter)}} of the bases (quick: generated tiny + micro models and cubo.json; thorough: + the other 6 shipped models); (b) every ordered pair of such edits on the micro model (thorough: also on the tiny model); (c) 24 box models behind a brise-soleil of 29/31/40/60 identical slats whose centres coincide at 4.05, 0.1, 0.7, 1e-3, 123456.7, -2.3; every editor history of length <= {} from the empty model, and of one step less from a model that already holds a small library of constructions, over {} operations (add space / wall / dangling wall / ground floor / window / wallcons / material / wincons / glass+frame / bridge / shade / loads+schedules / n50+ventilation / interior wall); each resulting document that loads as a Model is run through energy_indicators() in a supervised worker process (20 s watchdog, 4 GiB, panic-site capture, post-panic sentinel on cubo.json); closed models with positive sizes must report only finite numbers and JSON that loads back; non-trivial = document loads as a model", maxlen, NOPS),
         true,
         json!({}),
     )
